@@ -125,6 +125,14 @@ def _mk_tier_step(others_states_by_kind):
                 if st2 == "ok" and wellformed(r2) is None:
                     c = canon(r2)
                     succ = (c[0], "t") + c[2:]
+                # the SAME call again on the same receiver (whose first result has been edited meanwhile): a second, independent copy with the
+                # content a clean execution gives
+                st3, r3, _ = call(tierops.apply, t, op, others)
+                if st3 == "ok" and st2 == "ok":
+                    if r3 is r:
+                        viols.append(Viol("same-object-returned-twice", f"{tag}: calling it again returned the very object of the first call (which the caller had edited)"))
+                    elif canon(r3) != canon(r2):
+                        viols.append(Viol("second-call-differs", f"{tag}: called again after the first result had been edited: {canon(r3)}; a clean execution gives {canon(r2)}"))
         return succ, 1, op[0] + (":raised" if st == "exc" else ""), (op[:2], st), viols
     return step
 
